@@ -1385,6 +1385,31 @@ fn gen_agg(rng: &mut Rng) -> Agg {
     *rng.pick(Agg::ALL)
 }
 
+/// An inner loop that ends through its CONDITION after k = 1..3 rounds while max is 3..6: the body ends
+/// in a keyed fold under a constant key (one element per round), the state counts the elements, the
+/// condition is `state < k`. Executed again by every round of the enclosing loop (seed C01-4: a round
+/// counter that survives a condition stop cuts the later executions short).
+fn gen_cond_stop_loop(rng: &mut Rng) -> LoopSpec {
+    let mut body = vec![];
+    for _ in 0..rng.below(3) {
+        body.push(match rng.below(4) {
+            0 => BStage::Shuffle,
+            1 => BStage::AddSt(*rng.pick(&[2, 5, 7])),
+            2 => BStage::Map(MapFn::Mul, gen_k(rng)),
+            _ => BStage::Map(MapFn::Add, gen_k(rng)),
+        });
+    }
+    body.push(BStage::GbFold(KeyFn::Kconst, 0, *rng.pick(&[Agg::Sum, Agg::Max, Agg::Summod, Agg::Cnt])));
+    // mostly k in {2, 3} with k < max <= 2k - 1: two executions accumulate more than max rounds
+    let (k, max) = if rng.chance(7, 8) {
+        let k = rng.range(2, 3);
+        (k, rng.range(k + 1, 2 * k - 1))
+    } else {
+        (rng.range(1, 3), rng.range(3, 6))
+    };
+    LoopSpec { iters: max as usize, init: 0, agg: Agg::Cnt, cond: (PredFn::Lt, k), body }
+}
+
 /// A random loop. `iterate`: the body output is fed back (no `reduce` at the end: the feedback link
 /// is a forward connection into the unlimited loop block). `side`: size of the side input, if any.
 fn gen_loop(rng: &mut Rng, depth: usize, iterate: bool, size: usize, side: Option<usize>) -> LoopSpec {
@@ -1393,6 +1418,7 @@ fn gen_loop(rng: &mut Rng, depth: usize, iterate: bool, size: usize, side: Optio
     let mut unlimited = true;
     let mut size = size.max(1);
     let mut side_used = false;
+    let mut cond_stop_inner = false;
     for i in 0..n {
         let last = i + 1 == n;
         let st = match rng.below(24) {
@@ -1422,12 +1448,22 @@ fn gen_loop(rng: &mut Rng, depth: usize, iterate: bool, size: usize, side: Optio
                 BStage::FlatMap(FlatFn::Dup, 0)
             }
             11 if depth == 0 && unlimited => {
-                let l = gen_loop(rng, depth + 1, false, size, None);
+                let l = if rng.chance(1, 2) {
+                    cond_stop_inner = true;
+                    gen_cond_stop_loop(rng)
+                } else {
+                    gen_loop(rng, depth + 1, false, size, None)
+                };
                 size = 1;
                 BStage::Replay(Box::new(l))
             }
             12 | 22 | 23 if depth == 0 && unlimited => {
-                let l = Box::new(gen_loop(rng, depth + 1, true, size, None));
+                let l = Box::new(if rng.chance(1, 2) {
+                    cond_stop_inner = true;
+                    gen_cond_stop_loop(rng)
+                } else {
+                    gen_loop(rng, depth + 1, true, size, None)
+                });
                 size += 1;
                 match rng.below(3) {
                     0 => BStage::Iterate(l),
@@ -1470,11 +1506,24 @@ fn gen_loop(rng: &mut Rng, depth: usize, iterate: bool, size: usize, side: Optio
     if side.is_some() && !side_used && unlimited {
         body.push(BStage::MergeSide);
     }
+    if depth == 0 && unlimited && !cond_stop_inner && rng.chance(1, 5) {
+        // make the condition-stopped inner loop a visible share of the programs with loops
+        cond_stop_inner = true;
+        let l = Box::new(gen_cond_stop_loop(rng));
+        body.push(match rng.below(4) {
+            0 => BStage::Replay(l),
+            1 => BStage::Iterate(l),
+            2 => BStage::IterItems(l),
+            _ => BStage::IterBoth(l),
+        });
+    }
+    let cond = if rng.chance(1, 2) { (PredFn::True, 0) } else { (PredFn::Lt, *rng.pick(&[50, 500, 5000])) };
     LoopSpec {
-        iters: rng.range(1, 3) as usize,
+        // an inner loop that stops through its condition is executed 2-4 times
+        iters: if cond_stop_inner { rng.range(2, 4) as usize } else { rng.range(1, 3) as usize },
         init: rng.range(0, 3),
         agg: *rng.pick(&[Agg::Sum, Agg::Cnt, Agg::Summod, Agg::Sumsq]),
-        cond: if rng.chance(1, 2) { (PredFn::True, 0) } else { (PredFn::Lt, *rng.pick(&[50, 500, 5000])) },
+        cond: if cond_stop_inner { (PredFn::True, 0) } else { cond },
         body,
     }
 }
